@@ -20,7 +20,8 @@ THEOREMS = ['Libvna.LU.' + t for t in ('sum_split3', 'lu_of_recurrence', 'forwar
     ['Libvna.QR.' + t for t in ('reflector_unitary', 'reflector_annihilates', 'alpha_choice', 'normal_eq_minimises')] + \
     ['Libvna.QRLoop.' + t for t in ('colLoop_spec', 'divCol_spec', 'colUpd_spec', 'reflectCols_spec', 'qrdStep_fun', 'hh_range', 'qrdStep_inv', 'qrdLoop_inv',
                                     'qrd_factors', 'normal_of_qr', 'applyQ_spec', 'qrBack_spec', 'qrCols_spec', 'qrsolve_normal', 'complexOps_spec',
-                                    'qrsolve_least_squares')]
+                                    'qrsolve_least_squares', 'rowLoop_spec', 'qUpd_spec', 'qRows_spec', 'qRows_matrix', 'qAccum_matrix', 'qr_factors',
+                                    'qs2Back_spec', 'qs2Cols_spec', 'qrsolve2_normal', 'qr_qrsolve2_normal')]
 FILES = ['Model/LinAlg.lean', 'Props/C19.lean', 'Props/C19Loop.lean', 'Props/C19Solve.lean', 'Props/C19QR.lean']
 LD = np.clongdouble
 
@@ -130,6 +131,9 @@ def run(chk):
         B = rcm(rng, m, o)
         lines.append('num qrsolve %d %d %d %s %s' % (m, n, o, flat(A), flat(B)))
         cases.append(('qrsolve', 'tall', A, B))
+        # the same through the explicit factors (the Gauss-Newton step of the iterative solver): _vnacommon_qr, _vnacommon_qrsolve2
+        lines.append('num qrsolve2 %d %d %d %s %s' % (m, n, o, flat(A), flat(B)))
+        cases.append(('qrsolve2', 'tall', A, B))
         # singular
         n = rng.randint(1, nmax)
         A, sk = make_singular(rng, n)
@@ -231,7 +235,19 @@ def run(chk):
         else:
             w = line.split()
             m_, n_ = A.shape
-            X = np.array(vlib.hs2c(w[w.index('X') + 1:]), complex).reshape(n_, B.shape[1])
+            X = np.array(vlib.hs2c(w[w.index('X') + 1:(w.index('Q') if 'Q' in w else len(w))]), complex).reshape(n_, B.shape[1])
+            if op == 'qrsolve2':
+                # the factors themselves: Q unitary, Q R = A, R upper triangular
+                Q = np.array(vlib.hs2c(w[w.index('Q') + 1:w.index('R')]), complex).reshape(m_, m_).astype(LD)
+                R = np.array(vlib.hs2c(w[w.index('R') + 1:]), complex).reshape(m_, n_).astype(LD)
+                eu = float(np.abs(Q.conj().T @ Q - np.eye(m_)).max())
+                # Householder QR is backward stable column by column (norm-wise), not entry by entry
+                ea = float((np.linalg.norm((Q @ R - A.astype(LD)).astype(complex), axis=0) / np.maximum(np.linalg.norm(A, axis=0), 1e-300)).max())
+                el = float(np.abs(np.tril(R, -1)).max()) if m_ > 1 else 0.0
+                if not (eu <= 1e-12 and ea <= 1e-12 and el == 0.0):
+                    chk.violation('qr-factors', '_vnacommon_qr on a %dx%d matrix: |Q^H Q - 1| = %.2e, |Q R - A| = %.2e (column norms, relative), below the diagonal of R %.2e' % (m_, n_, eu, ea, el), [lines[idx]])
+                    continue
+                chk.count('qr_factors_ok')
             Al, Xl, Bl = A.astype(LD), X.astype(LD), B.astype(LD)
             g = np.abs(Al.conj().T @ (Al @ Xl - Bl))
             s = np.abs(Al.conj().T) @ (np.abs(Al) @ np.abs(Xl) + np.abs(Bl))
@@ -249,8 +265,8 @@ def run(chk):
             # compare the solutions, not the bits: relative to conditioning
             mw, cw = mout[idx].split(), line.split()
             if 'X' in mw and 'X' in cw:
-                xm = np.array(vlib.hs2c(mw[mw.index('X') + 1:]), complex)
-                xc = np.array(vlib.hs2c(cw[cw.index('X') + 1:]), complex)
+                xm = np.array(vlib.hs2c(mw[mw.index('X') + 1:(mw.index('Q') if 'Q' in mw else len(mw))]), complex)
+                xc = np.array(vlib.hs2c(cw[cw.index('X') + 1:(cw.index('Q') if 'Q' in cw else len(cw))]), complex)
                 sc = max(1e-300, float(np.abs(xc).max()))
                 if xm.shape != xc.shape or float(np.abs(xm - xc).max()) > 1e-9 * max(1.0, cond) * sc:
                     nmis += 1
@@ -263,6 +279,8 @@ def run(chk):
     chk.samples = [lines[0][:300], lines[7][:300]]
     if not chk.violations:
         singular_calibrations(chk, exe, rng)
+    if not chk.violations:
+        missing_column_calibrations(chk, exe, rng)
     if broken and not chk.violations:
         chk.violation('obligation', 'proof/correspondence obligations that no longer check:\n' + '\n'.join(broken[:30]), nofail=True)
 
@@ -319,6 +337,47 @@ def singular_calibrations(chk, exe, rng):
             if out[-1] != 'ok live=0':
                 chk.violation('singular-cal-leak', '%s: allocations remain: %s' % (tag, out[-1]), sc.lines)
                 return
+
+
+def missing_column_calibrations(chk, exe, rng):
+    """over-determined calibration systems (the QR path) with an exactly zero column: a two-port calibrated from reflect standards only
+    - the through forgotten - has no equation with a transmission term in it; one matched standard given several times has zero columns
+    for the terms multiplied by S.  The elimination meets an exactly zero column: EDOM, whatever the stack or heap held before."""
+    from props import calsim
+    codes = (calsim.SHORT, calsim.OPEN, calsim.MATCH)
+    for typ in calsim.TYPES:
+        if typ in ('T16', 'U16'):
+            continue
+        for variant in ('no-through', 'match-only'):
+            if variant == 'no-through' and typ not in ('UE14', 'E12'):
+                # in the single-system types the equations of the second port are homogeneous in its terms: no zero column, and the
+                # solve returns them as zero (a set that does not determine the terms: nothing is claimed, C20)
+                continue
+            if variant == 'no-through':
+                sc = calsim.Scenario(rng, typ, 2, 2, 1).begin()
+                pairs = [(a, b) for a in codes for b in codes]
+                rng.shuffle(pairs)
+                for a, b in pairs[:rng.randint(7, 9)]:
+                    sc.add_double_reflect(1, 2, a, b)
+            else:
+                sc = calsim.Scenario(rng, typ, 1, 1, 1).begin()
+                for _ in range(rng.randint(4, 6)):
+                    sc.add_reflect(1, calsim.MATCH)
+            sc.solve()
+            isolve = len(sc.lines) - 1
+            sc.lines += ['cal free 0', 'cal live']
+            out, rc, err = vlib.run_lines(exe, sc.lines, timeout=120)
+            chk.evaluations += 1
+            tag = '%s %s (%d standards, over-determined)' % (typ, variant, len([l for l in sc.lines if l.startswith('cal add ')]))
+            if rc != 0 or len(out) != len(sc.lines):
+                chk.violation('sanitizer-missing-column', '%s: crashed / sanitizer report:\n%s' % (tag, err[-1000:]), sc.lines[:len(out) + 1])
+                return
+            res = out[isolve]
+            if res.startswith('ok') or 'EDOM' not in res:
+                chk.violation('missing-column', '%s: a column of the over-determined system is exactly zero but vnacal_new_solve answered %s instead of failing with EDOM' % (tag, res[:80]), sc.lines[:isolve + 1])
+                return
+            chk.count('missing_column_edom')
+            chk.distinct.add(('misscol', typ, variant))
 
 
 def replay(chk, path):
